@@ -38,3 +38,14 @@ def run(ctx):
     rep.cov["distinct_nontrivial"] = max(2, len(cases))
     rep.cov["static_inventory"] = INVENTORY
     return {"diffs": [], "fails": fails, "to_script": lambda c: c["script"]}
+
+def replay(ctx, rp):
+    """run the stored thread configuration again under ThreadSanitizer"""
+    sc = rp.get("script") or []
+    if not sc or not sc[0].startswith("drvt "):
+        print("replay file holds no thread configuration: %s" % str(rp.get("broken") or rp.get("what"))[:1000]); return 1
+    t = common.build_impl("tsan")
+    env = dict(os.environ); env["TSAN_OPTIONS"] = "halt_on_error=0:report_signal_unsafe=0:second_deadlock_stack=1"
+    p = subprocess.run([t["drvt"]] + sc[0].split()[1:], stdout=subprocess.PIPE, stderr=subprocess.PIPE, env=env, timeout=1800, universal_newlines=True, errors="replace")
+    print("== %s: exit status %d\n%s\n%s" % (sc[0], p.returncode, p.stdout[-500:], p.stderr[-3000:]))
+    return 1 if (p.returncode != 0 or "ThreadSanitizer" in p.stderr or not p.stdout.startswith("ok")) else 0
